@@ -789,6 +789,96 @@ theorem typed_property_extends_untyped {t : TableT} (hdef : DefaultPropTypes t) 
     Typed.getProperty t self p = Repaired.getProperty t.erase self p :=
   getProperty_default hdef (lookupClass_self hc) p
 
+/-! ### scoped names `A::B` as a query: only members, never what is merely visible -/
+
+private theorem scopedTail_none (t : Table) (l : List Name) : scopedTail t none l = none := by
+  cases l <;> rfl
+
+/-- **`A::B…` is found only through members**: a scoped name of two or more parts looked up on the module is found
+    only if it has exactly two parts, `A` is a class, and `B` is a nested enum found by the member look-up of `A` —
+    the result is that enum of its declaring class.  A third part never resolves (enums have no nested types), and
+    a first part that is not a class (module enum, builtin, unknown) has no members at all. -/
+theorem scoped_found_only_members {t : Table} {a b : Name} {rest : List Name} {x : Named}
+    (h : moduleGetTypeScoped t (a :: b :: rest) = some x) :
+    rest = [] ∧ ∃ c, lookupClass t.classes a = some c ∧
+      ∃ y, Repaired.getType t c b = .found y ∧ x = .nested y.1 y.2.name := by
+  have h' : scopedTail t (moduleGetType t a) (b :: rest) = some x := h
+  unfold moduleGetType at h'
+  cases hc : lookupClass t.classes a with
+  | none =>
+    rw [hc] at h'
+    simp only at h'
+    split at h'
+    · simp only [scopedTail, namedGetType, scopedTail_none] at h'; cases h'
+    · simp only [scopedTail_none] at h'; cases h'
+  | some c =>
+    rw [hc] at h'
+    simp only [scopedTail, namedGetType] at h'
+    cases hg : Repaired.getType t c b with
+    | notFound => rw [hg] at h'; simp only [scopedTail_none] at h'; cases h'
+    | error e => rw [hg] at h'; simp only [scopedTail_none] at h'; cases h'
+    | found y =>
+      rw [hg] at h'
+      simp only at h'
+      cases rest with
+      | nil => simp only [scopedTail] at h'; cases h'; exact ⟨rfl, c, rfl, y, hg, rfl⟩
+      | cons r rs => simp only [scopedTail, namedGetType, scopedTail_none] at h'; cases h'
+
+/-- **`A::B` is found exactly when `A` or a public ancestor of `A` declares the nested enum `B`** — every table; the
+    enum found belongs to a class `A` derives from and that declares it (not a descendant, a sibling, a top-level
+    class, a builtin, `A` itself or an enumerator). -/
+theorem scoped_found_iff_member {t : Table} {a : Name} {c : ClassDecl} (hc : lookupClass t.classes a = some c) (b : Name) :
+    ((∃ x, moduleGetTypeScoped t [a, b] = some x) ↔ Inherits (toGraph t) (fun z => DeclaresEnum (toGraph t) z b) a) ∧
+    (∀ o n, moduleGetTypeScoped t [a, b] = some (.nested o n) →
+      n = b ∧ Derives (toGraph t) a o.name ∧ DeclaresEnum (toGraph t) o.name b) := by
+  have hl := nested_enum_lookup_repaired hc b
+  have heq : moduleGetTypeScoped t [a, b] =
+      (match Repaired.getType t c b with
+       | .found y => some (.nested y.1 y.2.name)
+       | _ => none) := by
+    show scopedTail t (moduleGetType t a) [b] = _
+    unfold moduleGetType
+    rw [hc]
+    simp only [scopedTail, namedGetType]
+    cases Repaired.getType t c b <;> rfl
+  refine ⟨?_, ?_⟩
+  · rw [← hl.found_iff, heq]
+    constructor
+    · rintro ⟨x, hx⟩
+      cases hg : Repaired.getType t c b with
+      | found y => exact ⟨y, rfl⟩
+      | notFound => rw [hg] at hx; cases hx
+      | error e => rw [hg] at hx; cases hx
+    · rintro ⟨y, hy⟩
+      rw [hy]; exact ⟨_, rfl⟩
+  · intro o n h
+    rw [heq] at h
+    cases hg : Repaired.getType t c b with
+    | notFound => rw [hg] at h; cases h
+    | error e => rw [hg] at h; cases h
+    | found y =>
+      rw [hg] at h
+      simp only [Option.some.injEq, Named.nested.injEq] at h
+      obtain ⟨h1, h2⟩ := h
+      have hs := hl.found_sound y hg
+      have hen : y.2.name = b := by
+        obtain ⟨d, _, hd⟩ := Repaired.fmsb_found (Repaired.getType_eq_found.mp hg)
+        unfold getTypeNoSuper at hd
+        split at hd
+        · next e he => cases hd; exact (lookupEnum_some he).2
+        · cases hd
+      rw [← h1, ← h2]
+      exact ⟨hen, hs.1, hs.2⟩
+
+example :
+    moduleGetTypeScoped diamond ["Leaf", "E"] = some (.nested root "E") ∧
+    moduleGetTypeScoped diamond ["Leaf", "Mid1"] = none ∧ moduleGetTypeScoped diamond ["Leaf", "Leaf"] = none ∧
+    moduleGetTypeScoped diamond ["Leaf", "int"] = none ∧ moduleGetTypeScoped diamond ["Leaf", "V"] = none ∧
+    moduleGetTypeScoped diamond ["Leaf", "E", "V"] = none ∧ moduleGetTypeScoped diamond ["int", "E"] = none ∧
+    classResolveTypeScoped diamond leaf ["int"] = some (.prim "int") ∧
+    classResolveTypeScoped diamond leaf ["Mid1", "E"] = some (.nested root "E") ∧
+    classResolveTypeScoped diamond leaf ["Mid1", "Root"] = none := by decide
+
 /-! witnesses (the shapes the seeded change C17/4 was demonstrated on) -/
 
 def baseMeter : ClassDeclT := { name := "BaseMeter", props := [{ name := "level" }], slots := [{ name := "update" }] }
